@@ -38,6 +38,12 @@ Theorem C15_route_text : forall p, Forall wf_seg p -> parse_route (print_route p
 Proof. exact parse_print_route. Qed.
 Print Assumptions C15_route_text.
 
+(* the link kind is part of the link: an address-string link never passes for a configured number or dotted quad *)
+Theorem C15_link_kind : forall p q t l rest, (forall t', l <> LText t') ->
+  accept (Some ((p, l) :: rest)) (Some ((q, LText t) :: rest)) = false.
+Proof. exact accept_link_kind. Qed.
+Print Assumptions C15_link_kind.
+
 Example C15_nonvacuous :
   parse_route [49; 47; 48; 47; 50; 47; 49; 46; 50; 46; 51; 46; 52] = Some [(1, LNum 0); (2, LIp 1 2 3 4)] /\
   accept (Some [(1, LNum 0)]) (Some [(1, LNum 0); (2, LNum 5)]) = false /\
